@@ -310,6 +310,10 @@ def run(ctx):
     P = ctx.prove
     P("base.CaptionSet.get_languages", get_languages_order, functions=[CS.get_languages])
     P("dfxp.LegacyDFXPWriter._force_language", legacy_force, functions=[LegacyDFXPWriter._force_language])
+    # DFXPWriter.write: force= selects exactly the named language, otherwise every language is written, in order, each
+    # with its own captions (skeleton contract shared with C07)
+    import props.C07_write as WS
+    WS.prove_write_skeleton(ctx)
     P("sami.SAMIParser._find_lang", sami_find_lang, functions=[SAMIParser._find_lang])
     # the merge of concurrent captions (legacy / single-position DFXP writers) works language by language: a language
     # without captions is left alone and receives nothing from its neighbours (contract shared with C19)
